@@ -44,6 +44,21 @@ def inert_none_path(F, R, names, rule='Q1'):
               'state is written without testing the inner view\'s last()'), v.file)
 
 
+def no_absolute_thresholds(F, R, names, rule='G0'):
+    """Guards must compare like with like or against literal zero: a comparison of a dimensional quantity with an
+    absolute constant (epsilon, a non-zero literal) makes the result depend on the magnitude of the data, so the
+    defining formula is not applied to small-magnitude (or large-magnitude) input."""
+    views = view_by_name(F)
+    for n in names:
+        v = views.get(n)
+        if v is None:
+            continue
+        dom, tau, out, m = analyse_view(F, v, Degree)
+        bad = [(msg, term) for rule_, msg, term in dom.complaints if rule_ == 'D-cmp']
+        R.ob(rule, n, not bad, 'every guard compares quantities of the same degree or tests against literal zero' if not bad else
+             'absolute threshold: %s: %s' % bad[0], v.file)
+
+
 def run_c12(F, R):
     R.trust('rustc front end; sfa/vg.py; degree typing rules in sfa/e_typing.py; degree table in sfa/spec.py (from the property)')
     R.assume('real arithmetic for general a > 0; bit-exact for a a power of two; moving averages supplied to EFT/PFE are degree-1 views')
@@ -158,6 +173,48 @@ def ema_convex(F, R):
         R.violation('B2-ema', 'Ema:convex', why, v.file)
 
 
+def ema_seed_and_alpha(F, R):
+    """Ema::new uses alpha = 2; the first delivered value seeds the average under a guard that does not depend on data."""
+    v = view_by_name(F).get('Ema')
+    if v is None:
+        return
+    m = model(F, v)
+    alpha_ok = False
+    for mm in m.ctor_models:
+        if mm['fn'].name == 'new' and mm['init']:
+            alpha_ok = any(t == lit(2.0) for c, t in mm['init'].items())
+    R.ob('B2-ema', 'Ema:alpha', alpha_ok, 'Ema::new uses alpha = 2, so w = 2/(N+1) ∈ (0, 1] for N >= 1' if alpha_ok else 'default alpha is not 2', v.file)
+    seed_ok = False
+    for cell, tt in m.up_fields.items():
+        for x in subterms(tt):
+            if x[0] == 'phi' and x[2][0] == 'child' and all(y[0] != 'child' for y in subterms(x[1])):
+                seed_ok = True
+    R.ob('B2-ema', 'Ema:seed', seed_ok, 'e_0 = x_0 under a guard that does not depend on data' if seed_ok else 'no data-independent seeding branch e_0 = x_0', v.file)
+    # the seeding guard must be true for the first delivered value only: integer skeleton, N = 1..8
+    from . import skeleton as sk
+    bad = []
+    for N in range(1, 9):
+        for cname, s0 in sk.init_states(m, [N]):
+            if s0 is None:
+                continue
+            states = [s0]
+            for k in range(1, 2 * N + 4):
+                prev = states
+                states, probs = sk.step(m, states)
+                # which branch was taken: evaluate the seeding conditions on the previous state
+                for st in prev:
+                    e = sk.Skel(st)
+                    for cell, tt in m.up_fields.items():
+                        for x in subterms(tt):
+                            if x[0] == 'phi' and x[2][0] == 'child' and all(y[0] != 'child' for y in subterms(x[1])):
+                                c = e.ev(x[1])
+                                if c is True and k > 1:
+                                    bad.append('N=%d: the seeding branch is taken again at delivered value %d' % (N, k))
+                                if c is not True and k == 1:
+                                    bad.append('N=%d: the first delivered value does not seed the average' % N)
+    R.ob('B2-ema', 'Ema:seed-once', not bad, 'the seeding branch is taken for the first delivered value and never again (N = 1..8)' if not bad else bad[0], v.file)
+
+
 def alma_params(F, R):
     """Alma: centre m = offset·(N+1), width s = N/sigma as expressions of the constructor arguments; weight = exp(·) > 0."""
     v = view_by_name(F).get('Alma')
@@ -182,10 +239,26 @@ def alma_params(F, R):
     # every weight pushed/added is exp(...) (positive)
     fl = flow(F, v)
     wq = [q for q, i in fl.queues.items() if i['V'] is not None and i['V'][0] == 'op' and i['V'][1] == 'exp']
+    # the kernel position of the incoming value is its index in the window: len of the queue it is pushed onto
+    idx_ok = False
+    for q, i in fl.queues.items():
+        V = i['V']
+        if V is not None and V[0] == 'op' and V[1] == 'exp':
+            qv = fl.m.up_fields.get('q_vals')
+            lens = [x[2][0] for x in subterms(V) if x[0] == 'op' and x[1] == 'from_int' and x[2][0][0] == 'len']
+            pushed_onto = None
+            if qv is not None:
+                for x in subterms(qv):
+                    if x[0] == 'push_back' and x[2][0] == 'child':
+                        pushed_onto = x[1]
+            if lens and pushed_onto is not None and all(x[1] == pushed_onto for x in lens):
+                idx_ok = True
+    R.ob('B2-alma', 'Alma:kernel-index', idx_ok, 'the weight of the incoming value is the kernel at its own index (length of the window after eviction, before the push)' if idx_ok else
+         'the kernel position of the incoming value is not its index in the post-eviction window', v.file)
     R.ob('B2-alma', 'Alma:positive-weights', bool(wq), 'weights are exp(·) > 0 and stored per sample in %s' % wq if wq else 'stored weights are not of the form exp(·)', v.file)
 
 
-def run_c04(F, R):
+def run_c04(F, R, tier='quick'):
     R.trust('rustc front end; sfa/vg.py; sfa/solve.py; linearity typing')
     R.assume('real arithmetic; N >= 1; default alpha; sigma > 0, offset in [0,1]')
     views = view_by_name(F)
@@ -205,11 +278,14 @@ def run_c04(F, R):
         R.ob('B1', n, ok, 'no data-dependent branch; every value is a linear form in the inputs', v.file)
     check_windows(F, R, spec.WINDOW_VIEWS_C04, 'W1')
     check_accumulators(F, R, {'Sma': 1, 'Alma': 2})
-    ema_convex(F, R)
+    ema_seed_and_alpha(F, R)
+    from .e_lti_props import ema_recurrence
+    ema_recurrence(F, R, tier)
     alma_params(F, R)
     inert_none_path(F, R, ['Sma', 'Ema', 'Alma'], 'Q1')
     no_raw_in_state(F, R, ['Sma', 'Ema', 'Alma'], 'R2s')
     R.floor('B1', 3)
     R.floor('M1', 3)
     R.floor('B2-ema', 4)
+    R.floor('B2-alma', 4)
     R.decline('that Alma\'s per-sample weight values form the Gaussian kernel positioned as stated over the live window (weights are attached at insertion time) is a value property; rounding is not decided')
